@@ -305,3 +305,192 @@ def check_C03(tier, seed):
     return res.finish(gate)
 
 CHECKS['C03'] = check_C03
+
+# ---------------------------------------------------------------- C02
+def check_C02(tier, seed):
+    from .gen import calls
+    res = Result('C02', tier, seed); res.pending = []
+    gate = proof_gate('C02')
+    core.build_model(); core.build_impl()
+    rng = random.Random(seed)
+    g = calls.CallGen(rng)
+    cases = []
+    obs = calls.PNAMES + ['fn', 'k', 'p', 'q']
+    def add(texts, tag):
+        c = Case('%s%d' % (tag, len(cases)))
+        for t in texts:
+            c.eval(programs.render_text(t)); c.vars(obs)
+        cases.append(c)
+    # exhaustive over shapes x argument counts x callee kind x route
+    maxreq, maxopt = tier_n(tier, 2, 3), tier_n(tier, 1, 2)
+    nex = 0
+    for nreq in range(maxreq + 1):
+        for nopt in range(maxopt + 1):
+            for rest in (0, 1):
+                for argc in range(0, 6):
+                    for kind in ('defun', 'lambda', 'closure', 'macro'):
+                        for route in (('direct',) if kind == 'macro' else ('direct', 'funcall', 'funcall-sharp')):
+                            add(g.user_callee_case(nreq, nopt, rest, argc, kind, route), 'u'); nex += 1
+    for _ in range(tier_n(tier, 1200, 30000)): add(g.builtin_case(), 'b')
+    for _ in range(tier_n(tier, 1200, 30000)): add(g.higher_order_case(), 'h')
+    for _ in range(tier_n(tier, 300, 6000)): add(g.tailrec_case(), 't')
+    impl, model, dis = differential(res, cases)
+    distinct = set()
+    for c in cases:
+        ls = impl.get(c.cid, [])
+        if len(ls) >= 3:
+            _, kind, payload, ticks = core.parse_line(ls[2])
+            if ticks not in ('-', None): distinct.add((kind, payload, ticks))
+    res.cov['distinct_nontrivial'] = len(distinct)
+    res.cov['exhaustive_shape_cases'] = nex
+    res.cov['exhaustive'] = False
+    res.cov['rule'] = ('exhaustive: parameter shapes (required 0..%d, &optional 0..%d, &rest 0/1) x 0..5 arguments x {defun, lambda, closure, macro} x '
+                       '{direct, funcall, funcall #\\\'}; random: %d built-in/host calls and %d higher-order calls (mapcar, seq-*, sort, assoc/alist-get testfn, funcall) '
+                       'over element kinds symbol/list/number/string/quoted form; every argument is (tick i e), some read or assign a variable named like a parameter; '
+                       'callee bodies tick the list of their parameters; compared: value/error class, tick log, variables; non-trivial = distinct call transcripts with a non-empty log'
+                       % (maxreq, maxopt, tier_n(tier, 1200, 30000), tier_n(tier, 1200, 30000)))
+    res.cov['samples'] = sample_cases(cases[::max(1, len(cases) // 3)])
+    for d in res.pending:
+        res.violation('disagreement', d, no_input=not oracle_confirms(d))
+    return res.finish(gate)
+
+CHECKS['C02'] = check_C02
+
+# ---------------------------------------------------------------- C08
+SIG_ALPHABET = "()'\".,@#;\\-1a \n`"
+
+def sweep_cases(alphabet, length):
+    cases = []
+    if length == 0:
+        c = Case('sw0'); c.lines.append('sweep %s 0 -1' % hx(alphabet)); c.nreq = 1
+        return [c]
+    for f in range(len(alphabet)):
+        c = Case('sw%d_%d' % (length, f))
+        c.lines.append('sweep %s %d %d' % (hx(alphabet), length, f)); c.nreq = 1
+        cases.append(c)
+    return cases
+
+def sweep_table(out):
+    t = {}
+    for cid, lines in out.items():
+        for l in lines:
+            p = l.split(' ')
+            if len(p) >= 5 and p[2] == 'SW':
+                t[p[3]] = ' '.join(p[4:])
+            elif len(p) >= 3 and p[2] in ('A', 'H'):
+                t['?abort:' + cid] = l
+    return t
+
+def token_soup(rng):
+    pieces = ['(', ')', "'", '`', ',', ',@', "#'", '#', '.', ' . ', '"', '\\', ';c\n', ';', '\n', ' ', '\t', '-', '--', '-.', '1', '12', '-3',
+              '1.5', '.5', '1.', '-.5', '99999999999999999999', '-99999999999999999999', '9223372036854775807', '9223372036854775808',
+              '-9223372036854775808', '-9223372036854775809', '1e5', '1.5.2', 'a', 'nil', 't', 'defun', 'foo-bar', ':k', '"s"', '"a\\"b"',
+              '"\\n"', '"\\q"', '"\\', 'é', '漢', '\U0001F600', '+1', '1-', '(defun', '(defmacro m (x)', '(a . b)', '(a .', '( . )',
+              '0000000000000000000000001', '1' * 25 + '.5', '.' , '..', '-1.', '\r', '1,2', "a'b", 'a(b', '(', '((', '))']
+    return ''.join(rng.choice(pieces) for _ in range(rng.choice([1, 2, 3, 4, 6, 9, 14])))
+
+def check_C08(tier, seed):
+    res = Result('C08', tier, seed); res.pending = []
+    gate = proof_gate('C08')
+    core.build_model(); core.build_impl(); core.build_impl(release=True)
+    rng = random.Random(seed)
+    maxlen = tier_n(tier, 4, 5)
+    cases = []
+    for L in range(0, maxlen + 1): cases += sweep_cases(SIG_ALPHABET, L)
+    total = 0
+    nonpanic_distinct = set()
+    for binary, label in ((core.TLIMPL_RELEASE, 'release'), (core.TLIMPL_DEBUG, 'debug')):
+        if label == 'debug' and tier == 'quick':
+            dcases = [c for c in cases if not c.cid.startswith('sw%d_' % maxlen)]   # debug sweep one length shorter
+        else:
+            dcases = cases
+        impl = sweep_table(core.run_side(binary, dcases, announce=True, timeout=1500))
+        model = sweep_table(core.run_side(core.TLMODEL, dcases, timeout=1500))
+        total += len(impl)
+        bad = 0
+        for k, v in impl.items():
+            mv = model.get(k)
+            if v.startswith('ok') or v == 'err': nonpanic_distinct.add(v[:40])
+            if k.startswith('?abort') or v == 'panic' or v.startswith('err-other'):
+                if bad < 5:
+                    res.violation('reader-panic', {'text': unhx(k) if not k.startswith('?') else k, 'impl': v, 'profile': label,
+                                                   'oracle': 'reading must yield a program or a parse error'})
+                bad += 1
+            elif mv != v:
+                if bad < 5:
+                    res.violation('reader-disagreement', {'text': unhx(k), 'impl': v if not v.startswith('ok ') else 'ok ' + unhx(v[3:]),
+                                                          'model': mv if not (mv or '').startswith('ok ') else 'ok ' + unhx(mv[3:]),
+                                                          'profile': label, 'correspondence': 'Reader.read_ax vs verif_parse'},
+                                  no_input=False)
+                bad += 1
+        for k in model:
+            if k not in impl and bad < 5:
+                res.violation('reader-missing', {'text': unhx(k) if not k.startswith('?') else k, 'profile': label}); bad += 1
+    res.cov['exhaustive'] = True
+    res.cov['exhaustive_space'] = 'all strings of length 0..%d over the %d syntactically significant characters %r' % (maxlen, len(SIG_ALPHABET), SIG_ALPHABET)
+    # prefixes of valid programs and token soups, through the parse request
+    pcases = []
+    g = programs.ProgGen(rng)
+    texts = []
+    for _ in range(tier_n(tier, 30, 400)):
+        for t in g.history(): texts.append(programs.render_text(t))
+    k = 0
+    for t in texts:
+        step = max(1, len(t) // tier_n(tier, 60, 400))
+        c = Case('pre%d' % k); k += 1
+        for cut in range(0, len(t) + 1, step): c.parsex(t[:cut])
+        pcases.append(c)
+    for i in range(tier_n(tier, 200, 4000)):
+        c = Case('soup%d' % i)
+        for j in range(25):
+            c.ctx(j); c.parsex(token_soup(rng))
+        pcases.append(c)
+    # the same reader behind load / eval-file: file contents incl. unusual first lines
+    heads = ['', '#!', '#!/usr/bin/tulisp', '#!/usr/bin/tulisp\n', '#', ';', ';; -*- lexical-binding: t -*-', '\ufeff', '\n', '\r\n', '#!\n(+ 1 2)', '"', '(', ')']
+    for i in range(tier_n(tier, 60, 1500)):
+        c = Case('file%d' % i)
+        body = rng.choice(heads) + (token_soup(rng) if rng.random() < 0.7 else '(list 1 "a\r\nb" 2)')
+        c.file('f.el', body); c.load('f.el')
+        c.eval('(load "f.el")')
+        pcases.append(c)
+    # deep nesting up to the stated bound of 200 levels
+    c = Case('deep')
+    for d in (50, 100, 150, 200):
+        c.parse('(' * d + 'a' + ')' * d); c.parse("'" * d + 'a'); c.parse('(' * d); c.parse('`' * d + ',' * d + 'a')
+    pcases.append(c)
+    for binary, label in ((core.TLIMPL_DEBUG, 'debug'), (core.TLIMPL_RELEASE, 'release')):
+        impl = core.run_side(binary, pcases, announce=True)
+        model = core.run_side(core.TLMODEL, pcases)
+        def obs(kind, payload, ticks):
+            # error kinds are not compared: a read-time definition may fail before a later parse error is seen
+            if kind == 'PARSE' and payload.startswith('err'): return ('PARSE', 'err', None)
+            if kind == 'E': return ('E', '', None)
+            return (kind, payload, None)
+        ncmp, nskip, dis = core.compare(pcases, impl, model, observe=obs)
+        total += ncmp
+        byid = {c.cid: c for c in pcases}
+        for c in pcases:
+            for l in impl.get(c.cid, []):
+                _, kind, payload, _ = core.parse_line(l)
+                if kind in ('A', 'H', 'P') or (kind == 'PARSE' and payload.startswith('panic')):
+                    idx = core.parse_line(l)[0]
+                    reqs = [r for r in c.readable() if r.startswith('parse')]
+                    res.violation('reader-panic', {'text': reqs[idx].split(' ', 1)[1] if idx < len(reqs) else None, 'impl': l, 'profile': label})
+                    break
+                nonpanic_distinct.add(payload[:40])
+        for d in dis[:5]:
+            c = byid[d['case']]
+            reqs = [r for r in c.readable() if r.startswith('parse')]
+            d2 = dict(d); d2['text'] = reqs[d['idx']].split(' ', 1)[1] if d['idx'] < len(reqs) else None
+            d2['impl_decoded'] = decode_line(d['impl']); d2['model_decoded'] = decode_line(d['model']); d2['profile'] = label
+            res.violation('reader-disagreement', d2)
+    res.cov['evaluations'] = total
+    res.cov['distinct_nontrivial'] = len(nonpanic_distinct)
+    res.cov['rule'] = ('exhaustive sweep of short strings (release; debug one length shorter in the quick tier), every ~%d-th prefix of generated valid programs, '
+                       'token soups with over-long numbers / lone signs and dots / dangling quotes and escapes, nesting to 200 levels; both build profiles; '
+                       'oracle: outcome is a parsed program or a ParsingError (no panic, abort, hang, other error kind); correspondence: forms and spans equal '
+                       'to Reader.read_ax of the Coq model; distinct_nontrivial = distinct (prefix of) parse results' % tier_n(tier, 60, 400))
+    res.cov['samples'] = ['(a .', '-.', '"abc\\', "#", ',@', '99999999999999999999'] + [token_soup(rng) for _ in range(3)]
+    return res.finish(gate)
+
+CHECKS['C08'] = check_C08
